@@ -60,6 +60,17 @@ Theorem C01_full_normal_eq_factor n c k (K : 'M[F]_n) (y : 'M[F]_(n, c)) (mu j s
   (K + noise_of Yf j) *m FullCond_init_LN_sS_cM_yF_uF_weights K y mu s j Yf = y - const_mx mu.
 Proof. exact: full_normal_eq_factor. Qed.
 
+(* "values are the mean" with a noise factor supplied for the uncertainty (the estimators pass L diag(std) after ADVI):
+   the factor is for the mean covariance only - the weights solve the jitter-regularised equations and do not depend on it *)
+Theorem C01_supplied_factor_not_in_mean n c k (K : 'M[F]_n) (y : 'M[F]_(n, c)) (mu j s : F) (Yf : 'M[F]_(n, k)) :
+  sym K -> psd K -> 0 < j ->
+  FullCond_init_LN_sS_cM_yT_uT_weights K y mu s j Yf = FullCond_init_LN_sS_cN_yT_uF_weights K y mu s j
+  /\ (K + j%:M) *m FullCond_init_LN_sS_cM_yT_uT_weights K y mu s j Yf = y - const_mx mu.
+Proof.
+move=> sK pK j0; have e : FullCond_init_LN_sS_cM_yT_uT_weights K y mu s j Yf = FullCond_init_LN_sS_cN_yT_uF_weights K y mu s j by [].
+by split=> //; rewrite e; apply: full_normal_eq_ymean.
+Qed.
+
 Theorem C01_full_normal_eq_given n c (y : 'M[F]_(n, c)) (mu j s : F) (L : 'M[F]_n) :
   is_lower L -> (forall i, L i i != 0) ->
   (L *m L^T) *m FullCond_init_LM_sS_cN_yF_uF_weights y mu L s j = y - const_mx mu.
@@ -159,6 +170,7 @@ Print Assumptions C01_add_variance_diag.
 Print Assumptions C01_noise_forms.
 Print Assumptions C01_full_normal_eq.
 Print Assumptions C01_full_normal_eq_factor.
+Print Assumptions C01_supplied_factor_not_in_mean.
 Print Assumptions C01_full_normal_eq_given.
 Print Assumptions C01_full_unique.
 Print Assumptions C01_dtc_normal_eq.
